@@ -1,6 +1,6 @@
 (* C16: the model's own step satisfies the property predicate of Cases/C16.v.
    The hypotheses are decidable checks on the configuration ([cfg_ok], [cfg_ok_links]) and on
-   the observed world ([world_ok], [exports_simple]). *)
+   the observed world ([world_ok], [chain_own]). *)
 From LC Require Import Lib.Bytes Lib.Lex Lib.Fields Lib.PathM Gen.Consts
   Model.MountInfo Model.FsTree Model.Kernel Model.Layers Cases.Verdict Cases.LC Cases.C16
   Proofs.MonadP Proofs.C15P Proofs.C10P Proofs.PathP
@@ -27,8 +27,8 @@ Definition cmd_spec (c : cfgT) (w : wobs) (v : sview) : bool :=
   match v_cmd v, v_res v with
   | CMount n, ROk =>
     forallb (fun x =>
-      C16.link_ok f' (C16.pkg_link c (l_name x)) (pathjoin [l_path x; c_binpkg c]) (C16.explicit_target c x (bs "package_export"))
-      && C16.link_ok f' (C16.gen_link c (l_name x)) (pathjoin [l_path x; c_gen c]) (C16.explicit_target c x (bs "file_export")))
+      C16.link_ok f' (C16.pkg_link c (l_name x)) (pathjoin [l_path x; c_binpkg c]) (C16.explicit_targets c x (C16.pkg_link c (l_name x)))
+      && C16.link_ok f' (C16.gen_link c (l_name x)) (pathjoin [l_path x; c_gen c]) (C16.explicit_targets c x (C16.gen_link c (l_name x))))
       (chain c f n)
   | CRename n _, ROk | CRemove n _, ROk =>
     negb (exists_ f' (C16.pkg_link c n)) && negb (exists_ f' (C16.gen_link c n))
@@ -138,13 +138,14 @@ Definition cfg_ok_mount (c : cfgT) : bool :=
   plainb (c_exp_binpkg c) && plainb (c_exp_gen c) && negb (beq (c_exp_binpkg c) (c_exp_gen c))
   && rel_ok (c_binpkg c) && rel_ok (c_gen c).
 
-(* every export directive of every layer of the chain names exactly one of the two keys, once *)
-Definition chain_simple (c : cfgT) (f : fsT) (n : bytes) : bool := forallb exports_simple (chain c f n).
+(* every expanded export directive of every layer of the chain targets one of that layer's own
+   two links (however it is spelled, and however many directives name one link) *)
+Definition chain_own (c : cfgT) (f : fsT) (n : bytes) : bool := forallb (own_targets c) (chain c f n).
 
 Definition mount_spec (c : cfgT) (n : bytes) (f f' : fsT) : bool :=
   forallb (fun x =>
-    C16.link_ok f' (C16.pkg_link c (l_name x)) (pathjoin [l_path x; c_binpkg c]) (C16.explicit_target c x (bs "package_export"))
-    && C16.link_ok f' (C16.gen_link c (l_name x)) (pathjoin [l_path x; c_gen c]) (C16.explicit_target c x (bs "file_export")))
+    C16.link_ok f' (C16.pkg_link c (l_name x)) (pathjoin [l_path x; c_binpkg c]) (C16.explicit_targets c x (C16.pkg_link c (l_name x)))
+    && C16.link_ok f' (C16.gen_link c (l_name x)) (pathjoin [l_path x; c_gen c]) (C16.explicit_targets c x (C16.gen_link c (l_name x))))
     (chain c f n).
 
 Lemma cfg_ok_mount_links c : cfg_ok_mount c = true -> cfg_ok_links c = true.
@@ -162,7 +163,7 @@ Proof. unfold aus, autoP, autoG, is_auto_of. intros [<-|[<-|[]]]; auto. Qed.
 
 Theorem C16_after_mount_partial_proof cfg w e n um :
   plain_env e = true -> cfg_ok cfg = true -> cfg_ok_mount cfg = true ->
-  chain_simple cfg (wo_fs w) n = true ->
+  chain_own cfg (wo_fs w) n = true ->
   v_res (view_of_model cfg w e (CMount n) um) = ROk ->
   mount_spec cfg n (wo_fs w) (wo_fs (v_after (view_of_model cfg w e (CMount n) um))) = true.
 Proof.
@@ -178,13 +179,11 @@ Proof.
   rewrite view_after. cbn [wo_fs]. rewrite view_res in Hok. unfold run in *.
   destruct (run_command e cfg um (CMount n) (MkSt (world_of w) 0 [])) as [o st1] eqn:Hrun.
   cbn [fst snd] in *. destruct o as [a| | | |]; try discriminate Hok.
-  unfold chain_simple in Hsim. rewrite forallb_forall in Hsim.
+  unfold chain_own in Hsim. rewrite forallb_forall in Hsim.
   assert (Hpost : forall x0, In x0 (chain cfg (wo_fs w) n) -> links_ok cfg x0 (w_fs (s_w st1))).
-  { refine (run_mount_post cfg e He _ _ _ _ _ um n (wo_fs w) Hsim (MkSt (world_of w) 0 []) a st1 eq_refl Hrun).
+  { refine (run_mount_post cfg e He _ _ _ _ um n (wo_fs w) Hsim (MkSt (world_of w) 0 []) a st1 eq_refl Hrun).
     - intros n0 [Hl Hne] T HT.
       apply (H_dir_proof cfg csE HEne HEp HE Hxb Hxg n0 T Hl Hne (in_lks _ _ _ HT)).
-    - intros n0 [Hl Hne] T HT.
-      apply (H_abs_proof cfg csE HEne HEp HE Hxb Hxg n0 T Hl Hne (in_lks _ _ _ HT)).
     - intros n0 [Hl Hne]. apply (H_PG_proof cfg csE HEne HEp HE Hxb Hxg Hbg n0 Hl Hne).
     - intros n0 m [Hl Hne] [Hlm Hnem] Hnm T HT T' HT'.
       apply (H_diff_proof cfg csE HEne HEp HE Hxb Hxg n0 m T T' Hl Hne Hlm Hnem Hnm (in_lks _ _ _ HT) (in_lks _ _ _ HT')).
@@ -201,7 +200,7 @@ Proof. intros Hc Hok. unfold cmd_spec. rewrite Hc, Hok. reflexivity. Qed.
 
 (* ------------------------------------------------------------------ the whole predicate *)
 Definition mount_ok (c : cfgT) (w : wobs) (cmd : command) : bool :=
-  match cmd with CMount n => chain_simple c (wo_fs w) n | _ => true end.
+  match cmd with CMount n => chain_own c (wo_fs w) n | _ => true end.
 
 Theorem C16_model_partial_proof cfg w e cmd um :
   cfg_ok cfg = true -> cfg_ok_mount cfg = true -> world_ok cfg w = true -> mount_ok cfg w cmd = true ->
